@@ -10,5 +10,6 @@ CONSTANTS
   Slack = 0
   Faults = {}
   BadMsgs = {FALSE}
+  ArrivalsPerState = 1
   Prompt = FALSE
 INVARIANTS Emit
